@@ -17,6 +17,7 @@ import (
 	"os"
 	"path/filepath"
 	"regexp"
+	"runtime/pprof"
 	"sort"
 	"strings"
 	"sync"
@@ -437,7 +438,15 @@ func main() {
 	replay := flag.String("replay", "", "")
 	groups := flag.Bool("groups", false, "print every violation signature with its witnesses (for NOTES.md)")
 	nocross := flag.Bool("nocross", false, "skip the go build cross-check (debugging only)")
+	cpuprof := flag.String("cpuprofile", "", "write a CPU profile (debugging only)")
 	flag.Parse()
+	if *cpuprof != "" {
+		f, err := os.Create(*cpuprof)
+		if err == nil {
+			_ = pprof.StartCPUProfile(f)
+			defer pprof.StopCPUProfile()
+		}
+	}
 	if *prop != "C12" {
 		vlib.Fatal("c12: unknown property %q", *prop)
 	}
@@ -739,5 +748,6 @@ func main() {
 			nS++
 		}
 	}
+	pprof.StopCPUProfile()
 	run.Finish()
 }
